@@ -1851,10 +1851,21 @@ class Obj(Container):
         if itmd is None:
             expanded = self.sympy
         else:
-            expanded = itmd.expand_itmd(
-                indices=self.idx, return_sympy=True, fully_expand=fully_expand
-            )
-            expanded = Pow(expanded, self.exponent)
+            exponent = S(self.exponent)
+            if exponent.is_Integer and exponent > 1:
+                # expand every factor separately: each of them needs its own
+                # set of contracted indices
+                expanded = Mul(*(
+                    itmd.expand_itmd(indices=self.idx, return_sympy=True,
+                                     fully_expand=fully_expand)
+                    for _ in range(int(exponent))
+                ))
+            else:
+                expanded = itmd.expand_itmd(
+                    indices=self.idx, return_sympy=True,
+                    fully_expand=fully_expand
+                )
+                expanded = Pow(expanded, exponent)
 
         if return_sympy:
             return expanded
